@@ -86,8 +86,30 @@ def run_whole_and_crops(ctx, report, gs, label, wide=False, force=None):
         rows, cols = rng.choice([(14, 22), (12, 26), (16, 20)])
         lo = rng.choice([-3, -2, -1, 0])
         hi = lo + rng.choice([1, 2, 3])
-        left, right = pl.make_pair(rng, rows, cols, lo, hi, masks=rng.random() < 0.4, smooth=True)
+        left, right = pl.make_pair(rng, rows, cols, lo, hi, masks=(force == "cbca_mask") or rng.random() < 0.4, smooth=True)
         pipe, rr, rc, cross = gen_local_pipeline(rng)
+        if force == "cbca_mask":
+            # small no-data patches inside the image (their window dilation makes NaN costs next to valid radiometry),
+            # integer costs, cbca: the integral images of the aggregation must not remember what precedes the crop
+            for ds in (left, right):
+                m = np.array(ds["msk"].data)
+                for _ in range(rng.randrange(1, 4)):
+                    r, c = rng.randrange(2, rows - 2), rng.randrange(4, cols - 4)
+                    m[r:r + rng.randrange(1, 3), c:c + rng.randrange(1, 3)] = 1
+                ds["msk"].data[:] = m
+            w_old = pipe["matching_cost"]["window_size"]
+            pipe["matching_cost"]["matching_cost_method"] = rng.choice(["sad", "ssd", "census"])
+            pipe["matching_cost"]["window_size"] = rng.choice([3, 3, 5])
+            delta = (pipe["matching_cost"]["window_size"] - 1) // 2 - (w_old - 1) // 2
+            rr += delta
+            rc += delta
+            if "aggregation" not in pipe:
+                dist = rng.choice([2, 3])
+                pipe = {"matching_cost": pipe["matching_cost"],
+                        "aggregation": {"aggregation_method": "cbca", "cbca_distance": dist, "cbca_intensity": rng.choice([8.0, 20.0])},
+                        **{k: v for k, v in pipe.items() if k != "matching_cost"}}
+                rr += dist + 1
+                rc += dist + 1
         if force == "zncc_cbca":
             pipe["matching_cost"]["matching_cost_method"] = "zncc"
             pipe["matching_cost"]["window_size"] = 3
@@ -194,6 +216,10 @@ def run(ctx, report, status):
         gs = ctx.rng.randrange(1 << 30)
         run_whole_and_crops(ctx, report, gs, f"gen_seed={gs},wide", wide=True)
         report.count("wide_strips")
+    for i in range(ctx.n(6, 60)):
+        gs = ctx.rng.randrange(1 << 30)
+        run_whole_and_crops(ctx, report, gs, f"gen_seed={gs},cbca_mask", force="cbca_mask")
+        report.count("cbca_with_nodata_patches")
 
 
 def search(ctx, report, status):
